@@ -187,6 +187,8 @@ class SymEval:
                 it = s[1]
                 if isinstance(it, dict) and it.get("kind") in ("const", "static") and it.get("init") is not None:
                     bind(env, it["name"], self.ev(it["init"], env))
+                if isinstance(it, dict) and it.get("kind") == "fn" and it.get("body") is not None:
+                    bind(env, it["name"], ("localfn", it))          # a function declared inside the body: callable by name, captures nothing
                 return r
             else:
                 self.fail("statement kind %s" % s[0])
@@ -437,7 +439,7 @@ class SymEval:
             return UNIT
         if k == "call":
             p = path_of(e[1]) or ""
-            if p in env and isinstance(env[p], tuple) and (env[p][0] in ("closure", "fnref") or (env[p][0] == "enum" and not env[p][2])):
+            if p in env and isinstance(env[p], tuple) and (env[p][0] in ("closure", "fnref", "localfn") or (env[p][0] == "enum" and not env[p][2])):
                 return self.apply(env[p], [self.ev(a, env) for a in e[2]])
             if p.split("::")[-1] in ("panic_fmt", "panic", "begin_panic", "panic_display", "unreachable_display", "panic_explicit", "assert_failed"):
                 raise Panic(p.split("::")[-1])
@@ -529,6 +531,8 @@ class SymEval:
                 return ("list", [])
             if "::" in p and p.split("::")[-1][:1].isupper():
                 return ("enum", self.enum_name(p), args)
+            if p.split("::")[-2:] == ["convert", "identity"] and len(args) == 1:
+                return args[0]
             ts_ = _tuple_struct(p, getattr(self.h, "self_ty", None) or getattr(self, "fn_self_ty", None))
             if ts_ is not None and ts_[1] == len(args):
                 return ("struct", ts_[0], {str(i_): a_ for i_, a_ in enumerate(args)})      # a tuple struct of the crate: fields "0", "1", ..
@@ -839,6 +843,10 @@ class SymEval:
                 old = base[2][place[2]]
                 base[2][place[2]] = v
                 return old
+            if isinstance(base, tuple) and base[0] == "tuple" and place[2].isdigit() and isinstance(base[1], list) and int(place[2]) < len(base[1]):
+                old = base[1][int(place[2])]
+                base[1][int(place[2])] = v
+                return old
         return NotImplemented
 
     def equal(self, a, b, e):
@@ -900,6 +908,15 @@ class SymEval:
             return self.apply(clo[2], [self.apply(clo[1], args)])
         if isinstance(clo, tuple) and clo[0] == "enum" and not clo[2]:
             return ("enum", clo[1], list(args))          # a tuple-variant constructor used as a function
+        if isinstance(clo, tuple) and clo[0] == "localfn":
+            fn = clo[1]
+            ps = [q[0] for q in fn["sig"]["params"]]
+            if len(ps) != len(args):
+                self.fail("call of the local function %s with %d arguments" % (fn["name"], len(args)))
+            try:
+                return self.block(fn["body"], Scope(dict(zip(ps, args))))
+            except Return as r_:
+                return r_.v
         if isinstance(clo, tuple) and clo[0] == "fnref":
             r = self.h.call(clo[1], args, None)
             if r is NotImplemented:
@@ -1033,7 +1050,7 @@ class SymEval:
                 return ("list", items[::args[0]])
             if m in ("to_vec", "clone", "to_owned", "collect"):
                 return ("list", list(items))
-            if m == "iter_mut" and isinstance(items, list) and items and not any(isinstance(x, tuple) and x and x[0] in ("struct", "list", "map", "fmt") for x in items):
+            if m == "iter_mut" and isinstance(items, list) and items and not any(isinstance(x, tuple) and x and x[0] in ("struct", "list", "map", "fmt", "tuple") for x in items):
                 # mutable references to scalar elements: cells that read and write the element in place
                 return ("list", [("cell", items, i_) for i_ in range(len(items))])
             if m in ("iter", "iter_mut", "into_iter", "as_slice", "as_mut_slice", "cloned", "copied", "as_ref", "as_mut", "peekable", "by_ref", "fuse"):
